@@ -23,7 +23,28 @@ import (
 
 // verifCombineIsConcatenation: combining the CRCs of x and y with len(y) gives the CRC of x followed by y, for all
 // three CRC variants.
-func verifCombineIsConcatenation(x []byte, y []byte) bool {
+func verifCombineIsConcatenation(x []byte, y []byte, lx uint16, ly uint16) bool {
+	// the generated slices are short: stretch them to pseudo-random strings of lx%5000 and ly%5000 bytes
+	stretch := func(seed []byte, n int) []byte {
+		out := make([]byte, n)
+		state := uint32(2463534242) + uint32(n)
+		for _, b := range seed {
+			state = state*31 + uint32(b)
+		}
+		for i := range out {
+			state ^= state << 13
+			state ^= state >> 17
+			state ^= state << 5
+			out[i] = byte(state)
+		}
+		return out
+	}
+	if lx%3 != 0 {
+		x = stretch(x, int(lx)%5000)
+	}
+	if ly%3 != 0 {
+		y = stretch(y, int(ly)%5000)
+	}
 	xy := append(append([]byte{}, x...), y...)
 	be32 := func(v uint32) []byte { b := make([]byte, 4); binary.BigEndian.PutUint32(b, v); return b }
 	be64 := func(v uint64) []byte { b := make([]byte, 8); binary.BigEndian.PutUint64(b, v); return b }
